@@ -17,6 +17,10 @@ ORDER_SENSITIVE = {
     "undef3": G % "undef" + 'start = AA BB CC DD EE "x";\n',
     "undef-mixed": G % "undefm" + 'AA = "a";\nAA = "b";\nBB = "c";\nBB = "d";\nstart = AA BB CC DD;\n',
     "samevalue2": G % "same" + 'AA = "x";\nBB = "x";\nCC = "y";\nDD = "y";\nEE = "y";\nstart = AA BB CC DD EE;\n',
+    # the same kinds of diagnostic for declarations written on ONE line (the semicolon after a token declaration is optional):
+    # an order "by line" leaves them tied
+    "oneline-same": G % "onel" + 'AA = "x" BB = "x" CC = "x" DD = "y" EE = "y"\nstart = AA BB CC DD EE;\n',
+    "oneline-multi": G % "onem" + 'AA = "a" AA = "b" BB = "c" BB = "d" CC = $NOPE DD = $NADA start = AA BB CC DD EE FF;\n',
     "predef-bad": G % "pre" + 'AA = $NOPE;\nBB = $NADA;\nstart = AA BB;\n',
     "dfa-conflicts": G % "conf" + 'AA = /[a-z]+/;\nBB = /[a-m]+/;\nCC = /[0-9]+/;\nDD = /[0-5]+/;\nstart = AA BB CC DD;\n',
     "bad-patterns": G % "badp" + 'AA = /[9-0]/;\nBB = /a{3,1}/;\nCC = /[z-a]/;\nstart = AA BB CC;\n',
